@@ -76,6 +76,19 @@ def _chunk(args):
     return ev, fails
 
 
+MULTI_SPLIT = [
+    'def g(): """foo : bar ; can"""; pass\n',
+    "def f(): '''doc''' # c\n",
+    "class A: pass; class B: pass; x = 1\n",
+    "def f(a): '''d'''; return a; # tail\nx = 2\n",
+    "class K:\n    @staticmethod\n    def m(): return 1  # one-liner\n\n    def n(self):\n        pass\n",
+    "class K:\n    @dec  # why\n    def m(self): '''doc'''; x = 1; return x\n    y = 2\n",
+    "if a: b = 1; c = 2; d = 3\nelse: e = 4; f = 5\n",
+    "def :''''''a", "def :def :a", "x = 1; y = 2; z = 3; w = 4\n",
+    'def h():\n    """multi\n    line"""; a = 1; b = 2  # c\n    return a\n',
+]
+
+
 def bounded(tier):
     n_max = 3 if tier == "quick" else 4
     jobs = [(0, "")] + [(n, a) for n in range(1, n_max + 1) for a in ALPHABET]
@@ -87,6 +100,11 @@ def bounded(tier):
     file_fails = common.pmap(_file, sorted(files, key=os.path.getsize, reverse=True), chunksize=1)
     ev += len(files)
     fails += [f for f in file_fails if f]
+    # hand-written lines in which ONE scanned statement is split several times (one-line definitions with docstrings,
+    # trailing comments, several statements on a line, decorated definitions): out of reach of the short enumeration
+    multi = common.pmap(_src, MULTI_SPLIT)
+    ev += len(MULTI_SPLIT)
+    fails += [f for f in multi if f]
     # seeded random mutations of repo files (thorough)
     if tier == "thorough":
         rnd = random.Random(int(os.environ.get("VERIF_SEED", "0") or 0))
@@ -103,8 +121,8 @@ def bounded(tier):
         fails += [f for f in mf if f]
     return {
         "name": "bounded cross-check of the C09 contracts on the real functions (NOT counted as proved)",
-        "bound": "all strings of <= %d symbols over a %d-symbol lexical alphabet; %s *.py files under cdd/ (quick: those <= 16 kB; cst_scan is quadratic); thousands of calls per process, so cross-call state shows%s"
-        % (n_max, len(ALPHABET), len(files), "; 3 seeded single-symbol mutations per file" if tier == "thorough" else ""),
+        "bound": "all strings of <= %d symbols over a %d-symbol lexical alphabet; %s *.py files under cdd/ (quick: those <= 16 kB; cst_scan is quadratic); thousands of calls per process, so cross-call state shows; %d hand-written multi-split lines%s"
+        % (n_max, len(ALPHABET), len(files), len(MULTI_SPLIT), "; 3 seeded single-symbol mutations per file" if tier == "thorough" else ""),
         "rule": "distinct input strings; non-trivial = non-empty",
         "evaluations": ev,
         "distinct_nontrivial": ev - 1 - len(files),
